@@ -428,6 +428,7 @@ func (l *IPFSLog) Iterator(options *IteratorOptions, output chan<- iface.IPFSLog
 
 	if options.Amount != nil {
 		if *options.Amount == 0 {
+			close(output)
 			return nil
 		}
 		amount = *options.Amount
